@@ -105,6 +105,15 @@ def _static_text(c, under):
 
 
 def _simple(c, variant):
+    r = _simple_tuple(c, variant)
+    if variant % 7 in (3, 6) and isinstance(r, tuple):
+        # the same condition given as an explicitly constructed condition object
+        from ak.mtd_sql import SqlFieldValCondition
+        return SqlFieldValCondition(r[0], '=', r[1]) if len(r) == 2 else SqlFieldValCondition(*r)
+    return r
+
+
+def _simple_tuple(c, variant):
     k = c['k']
     if k == 'static':
         return _static_text(c, c.get('under', False))
